@@ -375,6 +375,23 @@ pub(crate) fn stub_column_flush(_c: &Column) -> Result<()> {
 		Ok(())
 	}
 }
+// rely condition of the cleanup worker: while it flushes, the commit worker may finish further log files (they become
+// dirty); their pages are not covered by the flush that is under way
+pub(crate) static mut DIRTY_BEFORE_FLUSH: usize = 0;
+pub(crate) fn stub_column_flush_concurrent(_c: &Column) -> Result<()> {
+	unsafe {
+		if FL_FAIL {
+			return Err(Error::Corruption(String::new()))
+		}
+		if FL_N == 0 {
+			DIRTY_BEFORE_FLUSH = DIRTY;
+		}
+		FL_N += 1;
+		let grow: u8 = kani::any();
+		DIRTY += grow as usize;
+		Ok(())
+	}
+}
 pub(crate) fn stub_num_dirty_logs(_l: &Log) -> usize {
 	unsafe { DIRTY }
 }
@@ -397,7 +414,7 @@ fn u31_reset() {
 	}
 }
 db_harness!(#[kani::unwind(5)]
-	#[kani::stub(Column::flush, stub_column_flush)]
+	#[kani::stub(Column::flush, stub_column_flush_concurrent)]
 	#[kani::stub(crate::log::Log::num_dirty_logs, stub_num_dirty_logs)]
 	#[kani::stub(crate::log::Log::clean_logs, stub_log_clean_logs)]
 	u31_data_flushed_before_logs_are_reclaimed, {
@@ -405,8 +422,14 @@ db_harness!(#[kani::unwind(5)]
 	let sync_data: bool = kani::any();
 	db.options.sync_data = sync_data;
 	u31_reset();
+	kani::assume(unsafe { DIRTY } < 1 << 40);
+	let dirty = unsafe { DIRTY };
 	let r = ok(db.clean_logs());
-	let (dirty, fail) = unsafe { (DIRTY, FL_FAIL) };
+	let fail = unsafe { FL_FAIL };
+	if unsafe { CL_N } > 0 && sync_data {
+		// a log that became dirty while the flush was under way is not reclaimed by this call
+		assert!(unsafe { CL_ARG } <= unsafe { DIRTY_BEFORE_FLUSH }, "U31.clean_logs.logs_that_became_dirty_during_the_flush_are_not_reclaimed");
+	}
 	let keep = if sync_data { 0 } else { KEEP_LOGS };
 	if unsafe { CL_N } > 0 {
 		if sync_data {
